@@ -8,7 +8,9 @@ func init() {
 			return []*Job{f4Job("callgraph", "VerifCallGraph", 0, []string{"ran"}, []string{"C24-total", "C24-row"},
 				"method foo plus exactly one call site of each of 10 kinds (top-level statement, statement inside a method, inside a class method, call argument, inside a do-block, if / elsif / unless / while condition, assignment right-hand side), optionally preceded by an unrelated line; --llm-nav --target=foo must report `total callers: 1` and a caller entry naming the call's row; foo's return kind a solver variable; plus 6 shapes with several call sites of one method (total callers = number of call sites)"),
 				f4Job("namesakes", "VerifCallGraphNamesakes", 0, []string{"ran"}, []string{"C24-n-kb", "C24-n-other"},
-					"the name foo defined at top level, in class Ka and in class Kb (which also defines other), one call site each; --llm-nav with the target a method name defined three times, a class name, a method name defined once: one section per matching definition with its own call row, no section or call of a non-matching one")}
+					"the name foo defined at top level, in class Ka and in class Kb (which also defines other), one call site each; --llm-nav with the target a method name defined three times, a class name, a method name defined once: one section per matching definition with its own call row, no section or call of a non-matching one"),
+				f4Job("narrowed-sites", "VerifCallGraphNarrowed", 0, []string{"ran"}, []string{"C24-w-kb", "C24-w-count"},
+					"classes Ka, Kb (, Kc) each defining run, a method returning their union, and call sites v.run inside branches narrowed by is_a? tests (if/else, if/elsif/else, a call only in the final else, unless/else; inside a method and at top level): --llm-nav --target=run must list each branch's row under exactly one caller entry, and as many caller entries as call sites")}
 		},
 		Custom:    replayCallGraph,
 		Filter:    func(v *Violation) bool { return strings.HasPrefix(v.ID, "C24") },
